@@ -108,6 +108,9 @@ structure DState where
   unmodelled : Bool := false
   /-- items of a foreign archive announced by `item` lines, consumed by `@foreign` -/
   items : Tape := []
+  /-- the announced archive contains a lone zero block (record padding of odd length), which
+      the model's tape cannot represent -/
+  itemsOdd : Bool := false
 deriving Inhabited
 
 def kvs (fields : List String) : List (String × String) :=
@@ -344,6 +347,7 @@ def step (s : DState) (line : String) : DState × List String :=
      | _, _ => (s, ["sigres\tbad-line"]))
   | "env" :: fields => ({ s with env := parseEnv fields }, [])
   | "item" :: "trl" :: _ => ({ s with items := s.items ++ [.trailer] }, [])
+  | "item" :: "zero" :: _ => ({ s with itemsOdd := true }, [])
   | "item" :: "rec" :: f =>
     -- hb stored typeflag name linkname size mode uid gid uname gname mtime atime ctime len seed
     let h : Hdr := { typeflag := natArg f 2, name := nameArg f 3, linkname := nameArg f 4, size := intArg f 5,
@@ -353,7 +357,8 @@ def step (s : DState) (line : String) : DState × List String :=
   | "call" :: "@foreign" :: args =>
     -- the drive is replaced by an archive written by a standard tar writer; no index, new process
     let s' := { s with w := { tape := s.items, idx := {}, stuck := false }, handles := [], refHandles := [], items := [],
-                       tail := .clean, unmodelled := false }
+                       tail := .clean, unmodelled := s.itemsOdd, itemsOdd := false }
+    if s'.unmodelled then (s', ["call\t@foreign\t" ++ "\t".intercalate args, "unmodelled", "end"]) else
     (s', ["call\t@foreign\t" ++ "\t".intercalate args, "res\tok"] ++ observe s'.w s' ++ ["refres\t-"] ++ encTree s'.ref ++ ["end"])
   | "call" :: "@rebuildcut" :: c :: _ =>
     -- a from-scratch rebuild of the current tape cut at byte c (the running instance is untouched)
